@@ -258,7 +258,7 @@ def kernels(ctx, rep):
                     rep.case(key=None)
     # ---- shipped extension through Python
     for n, inp in enumerate(inputs):
-        hows = ["C"] + ([LAYOUTS[1 + (n % 6)]] if not ctx.thorough else LAYOUTS[1:])
+        hows = ["C"] + ([rng.choice(LAYOUTS[1:5]) if not inp["exact"] else rng.choice(LAYOUTS[1:])] if not ctx.thorough else LAYOUTS[1:])
         for how in hows:
             if how in ("int", "mixed") and not inp["exact"]:
                 continue
@@ -289,6 +289,308 @@ def kernels(ctx, rep):
     return terms, owners, flagged, known
 
 
+# ------------------------------------------------------------------ rectangular_grid
+ELEMS = ["H", "C", "N", "O", "F", "S", "Cl", "Br", "P", "Si"]
+SURF_BAND = Fr(1, 500)          # |d^2 - r^2| <= 2e-3: float32 rounding band around a sphere surface (coordinates <= ~16)
+NEAR_BAND = Fr(1, 10 ** 9)      # relative band of the KD-tree cut-off / tie comparisons (float64 rounding)
+VAL_TOL = Fr(1, 10 ** 9)        # aso / aeif values
+
+
+def grid_inputs(ctx):
+    rng = ctx.rng
+    out = []
+    spac = [0.25, 0.5, 0.75, 1.0, 1.5, 0.375, 2.0]
+    pads = [0.0, 0.25, 0.5, 1.0, 0.125, 2.0]
+    n = 50 if not ctx.thorough else 600
+    for i in range(n):                                   # dyadic: every float operation in the code is exact
+        s = rng.choice(spac)
+        pad = rng.choice(pads)
+        r1 = [rng.randint(-48, 48) / 8.0 for _ in range(3)]
+        r2 = []
+        for k in range(3):
+            u = rng.random()
+            if u < 0.15:
+                r2.append(r1[k])                                    # flat axis
+            elif u < 0.55:
+                r2.append(r1[k] + rng.randint(1, 6) * s)            # exact multiple of the spacing
+            else:
+                r2.append(r1[k] + rng.randint(0, 40) / 8.0)
+        out.append(dict(kind="grid", stream="dyadic", r1=r1, r2=r2, pad=pad, s=s, dtype=rng.choice(["float32", "float64"])))
+    for i in range(n // 2):                              # generic decimals (not dyadic): float64 and float32
+        s = rng.choice([0.3, 0.7, 1.1, 0.45, 0.9])
+        pad = rng.choice([0.0, 0.3, 1.3, 0.05])
+        r1 = [round(rng.uniform(-5, 5), 3) for _ in range(3)]
+        r2 = [round(r1[k] + rng.uniform(0, 4), 3) for k in range(3)]
+        out.append(dict(kind="grid", stream="generic", r1=r1, r2=r2, pad=pad, s=s, dtype=("float64" if i % 3 else "float32")))
+    # empty and inverted boxes: 0 samples on an axis -> empty grid; negative -> numpy raises
+    for r1, r2, pad, s in [([0, 0, 0], [-0.5, 1, 1], 0.0, 1.0), ([0, 0, 0], [-1, 1, 1], 0.0, 1.0), ([0, 0, 0], [-3, 1, 1], 0.0, 1.0),
+                           ([1, 1, 1], [-3, 2, 2], 0.0, 1.0), ([0, 0, 0], [-3, 1, 1], 1.5, 0.5), ([0, 0, 0], [0, 0, 0], 0.0, 1.0),
+                           ([0, 0, 0], [0, 0, -2.25], 0.0, 0.5)]:
+        out.append(dict(kind="grid", stream="dyadic", r1=[float(x) for x in r1], r2=[float(x) for x in r2], pad=pad, s=s, dtype="float32"))
+    return out
+
+
+def floor_div(a: Fr, b: Fr) -> int:
+    return math.floor(a / b)
+
+
+def run_grid(rd):
+    """(term|None, violation|None, info)"""
+    np = np_()
+    from molli.descriptor import gridbased as gb
+    typ = np.float32 if rd["dtype"] == "float32" else np.float64
+    # the values the code actually computes with: inputs converted to dtype first (python floats are weak scalars)
+    r1 = [Fr(float(typ(x))) for x in rd["r1"]]
+    r2 = [Fr(float(typ(x))) for x in rd["r2"]]
+    pad, s = Fr(float(typ(rd["pad"]))), Fr(float(typ(rd["s"])))
+    exact = rd["stream"] == "dyadic"
+    tol = Fr(0) if exact else (Fr(1, 10 ** 9) if rd["dtype"] == "float64" else Fr(1, 10 ** 5))
+    margin = Fr(0) if exact else (Fr(1, 10 ** 9) if rd["dtype"] == "float64" else Fr(1, 10 ** 4))
+    l = [r1[k] - pad for k in range(3)]
+    r = [r2[k] + pad for k in range(3)]
+    ns = [floor_div(r[k] - l[k], s) + 1 for k in range(3)]
+    fr = [(r[k] - l[k]) / s - (ns[k] - 1) for k in range(3)]
+    try:
+        g = gb.rectangular_grid(rd["r1"], rd["r2"], padding=rd["pad"], spacing=rd["s"], dtype=rd["dtype"])
+    except ValueError as e:
+        g = None
+        err = str(e)
+    except Exception as e:  # noqa
+        return None, ("raises-" + type(e).__name__, f"rectangular_grid({rd['r1']}, {rd['r2']}, {rd['pad']}, {rd['s']}, {rd['dtype']}) raised {e!r}"), {}
+    if not exact and any(f < margin or f > 1 - margin for f in fr):
+        return None, None, {"skipped": "point count within rounding of a floor boundary"}
+    call = f"rectangular_grid({rd['r1']}, {rd['r2']}, padding={rd['pad']}, spacing={rd['s']}, dtype={rd['dtype']})"
+    info = {"n": ns}
+    # ---- oracle (independent of the model): the property's clauses on the returned array
+    viol = None
+    if any(n < 0 for n in ns):
+        if g is not None:
+            viol = ("negative-extent-accepted", f"{call}: an axis has a negative sample count {ns} but a grid of shape {g.shape} was returned")
+        return f"(CGrid {vq(r1)} {vq(r2)} {q(pad)} {q(s)} {q(tol)} None)", viol, info
+    if g is None:
+        return None, ("raises-ValueError", f"{call} raised ValueError({err}) for a non-empty padded box"), info
+    g64 = np.asarray(g, dtype=np.float64)
+    ftol = float(tol) if tol else 0.0
+    if g64.shape != (ns[0] * ns[1] * ns[2], 3):
+        viol = ("wrong-count", f"{call} returned {g64.shape[0]} points, expected nx*ny*nz = {ns[0]}*{ns[1]}*{ns[2]}")
+    elif g64.shape[0]:
+        axes = [np.unique(g64[:, k]) for k in range(3)]
+        if [len(a) for a in axes] != ns:
+            viol = ("wrong-axes", f"{call}: distinct coordinates per axis {[len(a) for a in axes]}, expected {ns}")
+        elif len({tuple(p) for p in g64.tolist()}) != g64.shape[0]:
+            viol = ("duplicate-points", f"{call}: the grid contains duplicate points")
+        else:
+            for k in range(3):
+                ax = axes[k]
+                lo, hi = float(l[k]), float(r[k])
+                if len(ax) > 1 and np.abs(np.diff(ax) - float(s)).max() > max(ftol, 0) + 0:
+                    viol = ("wrong-spacing", f"{call}: axis {k} steps {np.diff(ax)[:4]} differ from the spacing {float(s)}")
+                elif abs((ax[0] - lo) - (hi - ax[-1])) > 2 * ftol:
+                    viol = ("not-centred", f"{call}: axis {k} leaves {ax[0] - lo} below and {hi - ax[-1]} above")
+                elif ax[0] < lo - ftol or ax[-1] > hi + ftol:
+                    viol = ("not-contained", f"{call}: axis {k} spans [{ax[0]}, {ax[-1]}] outside the padded box [{lo}, {hi}]")
+                if viol:
+                    break
+    # the property speaks about the grid as a set: the observed points are put into the model's raveling order
+    # (y slowest, z fastest) before the comparison, so a different but complete enumeration order does not alarm
+    pts = sorted(g64.tolist(), key=lambda p: (p[1], p[0], p[2]))
+    info["order_kept"] = pts == g64.tolist()
+    term = f"(CGrid {vq(r1)} {vq(r2)} {q(pad)} {q(s)} {q(tol)} (Some {rowsq(pts)}))"
+    return term, viol, info
+
+
+# ------------------------------------------------------------------ descriptors: inputs
+def desc_inputs(ctx):
+    rng = ctx.rng
+    out = []
+    n = 10 if not ctx.thorough else 120
+    pent = None
+    for i in range(n):
+        for kind in ("nearest", "prune", "aso", "aeif", "aif"):
+            generic = (i % 3 == 2)
+            C, N = rng.randint(1, 4), rng.randint(1, 7)
+            if generic:
+                coords = [[[round(rng.uniform(-3, 3), 4) for _ in range(3)] for _ in range(N)] for _ in range(C)]
+            else:
+                coords = [[[rng.randint(-48, 48) / 16.0 for _ in range(3)] for _ in range(N)] for _ in range(C)]
+            flat = [p for c in coords for p in c]
+            lo = [math.floor(min(p[k] for p in flat) * 4) / 4 for k in range(3)]
+            hi = [math.ceil(max(p[k] for p in flat) * 4) / 4 for k in range(3)]
+            grid = dict(r1=lo, r2=hi, pad=rng.choice([0.5, 1.0, 1.5]), s=rng.choice([1.0, 1.5, 0.75] if not ctx.thorough else [0.5, 1.0, 1.5, 0.75]),
+                        dtype=("float32" if rng.random() < 0.8 else "float64"))
+            rd = dict(kind=kind, stream=("generic" if generic else "dyadic"), coords=coords, elements=[rng.choice(ELEMS) for _ in range(N)],
+                      weights=[rng.randint(1, 16) / 8.0 for _ in range(C)], charges=[[rng.randint(-64, 64) / 64.0 for _ in range(N)] for _ in range(C)],
+                      grid=grid, weighted=(rng.random() < 0.5))
+            if kind in ("nearest", "prune"):
+                rd["cut"] = rng.choice([0.5, 1.0, 1.5, 2.0, 2.5, 3.0])
+                rd["eps"] = rng.choice([0.0, 0.25, 0.5, 1.0])
+                rd["target"] = rng.choice(["ens", "ens", "geom", "struct", "mol", "conf"])
+            if kind == "aif":
+                rd["radii"] = [rng.choice([0.5, 1.0, 1.25, 1.5, 2.0, 1.7, 1.1]) for _ in range(N)]
+                rd["values"] = [[rng.randint(-32, 32) / 8.0 for _ in range(N)] for _ in range(C)]
+                rd["pass_idx"] = rng.random() < 0.5
+            out.append(rd)
+    return out
+
+
+def build(ml, rd):
+    np = np_()
+    co = np.array(rd["coords"], dtype=np.float64)
+    C, N = co.shape[0], co.shape[1]
+    ens = ml.ConformerEnsemble(n_conformers=C, n_atoms=N, coords=co, weights=np.array(rd["weights"], dtype=float),
+                               atomic_charges=np.array(rd["charges"], dtype=float))
+    for a, e in zip(ens.atoms, rd["elements"]):
+        a.element = e
+    return ens
+
+
+def target_of(ml, rd, ens):
+    np = np_()
+    t = rd.get("target", "ens")
+    co = np.array(rd["coords"], dtype=np.float64)
+    if t == "ens":
+        return ens, co
+    if t == "conf":
+        k = len(co) - 1
+        return ens[k], co[k:k + 1]
+    cls = {"geom": ml.CartesianGeometry, "struct": ml.Structure, "mol": ml.Molecule}[t]
+    return cls(n_atoms=co.shape[1], coords=co[0]), co[0:1]
+
+
+def ensq(E):
+    return cq_list(rowsq(X) for X in E)
+
+
+def zl(l):
+    return cq_list(cq_Z(int(i)) for i in l)
+
+
+def ql(l):
+    return cq_list(q(x) for x in l)
+
+
+def run_desc(ml, rd):
+    """(term|None, violation|None, info)"""
+    np = np_()
+    from molli.descriptor import gridbased as gb
+    kind = rd["kind"]
+    gp = rd["grid"]
+    try:
+        grid = gb.rectangular_grid(gp["r1"], gp["r2"], padding=gp["pad"], spacing=gp["s"], dtype=gp["dtype"])
+    except Exception as e:  # noqa
+        return None, None, {"skipped": f"grid construction raised {e!r} (judged by the grid cases)"}
+    if grid.shape[0] == 0 or grid.shape[0] > 700:
+        return None, None, {"skipped": "empty or oversized grid"}
+    g64 = np.asarray(grid, dtype=np.float64)
+    ens = build(ml, rd)
+    co = np.array(rd["coords"], dtype=np.float64)
+    d2 = ((co[:, :, None, :] - g64[None, None, :, :]) ** 2).sum(-1)            # (C, N, G), float64 reference
+    info = {"G": int(grid.shape[0])}
+    what = f"{kind} on {co.shape[0]} conformer(s) x {co.shape[1]} atom(s), grid {gp}"
+    try:
+        if kind == "nearest":
+            tgt, cosel = target_of(ml, rd, ens)
+            obs = np.asarray(gb.nearest_atom_index(grid, tgt, max_dist=rd["cut"]))
+            rows = obs.reshape((-1, grid.shape[0])) if obs.ndim == 1 else obs
+            dsel = np.sqrt(((cosel[:, :, None, :] - g64[None, None, :, :]) ** 2).sum(-1))
+            viol = None
+            if rows.shape != (cosel.shape[0], grid.shape[0]) or (rd["target"] != "ens" and obs.ndim != 1):
+                viol = ("nearest:wrong-shape", f"{what}: result shape {obs.shape}")
+            else:
+                b = float(NEAR_BAND) * 4
+                for c in range(rows.shape[0]):
+                    dmin = dsel[c].min(axis=0)
+                    for gi in range(grid.shape[0]):
+                        r = int(rows[c, gi])
+                        if r == -1:
+                            ok = dmin[gi] >= rd["cut"] * (1 - b)
+                        else:
+                            ok = 0 <= r < dsel.shape[1] and dsel[c, r, gi] <= rd["cut"] * (1 + b) and dsel[c, r, gi] <= dmin[gi] * (1 + b)
+                        if not ok:
+                            tag = "plain-geometry" if rd["target"] != "ens" else "ensemble"
+                            viol = (f"nearest:{tag}:wrong-index", f"{what}: target={rd['target']} max_dist={rd['cut']}: grid point {g64[gi].tolist()} got index {r}, "
+                                    f"closest atom is at distance {dmin[gi]:.6f}" + (f", atom {r} at {dsel[c, r, gi]:.6f}" if 0 <= r < dsel.shape[1] else ""))
+                            break
+                    if viol:
+                        break
+            term = f"(CNearest {q(NEAR_BAND)} {ensq(cosel.tolist())} {q(rd['cut'])} {rowsq(g64.tolist())} {cq_list(zl(r) for r in rows.tolist())})"
+            return term, viol, info
+        if kind == "prune":
+            tgt, cosel = target_of(ml, rd, ens)
+            kept = np.asarray(gb.prune(grid, tgt, max_dist=rd["cut"], eps=rd["eps"]))
+            atoms = cosel.reshape((-1, 3))
+            dmin = np.sqrt(((atoms[:, None, :] - g64[None, :, :]) ** 2).sum(-1)).min(axis=0)
+            b = float(NEAR_BAND) * 4
+            ks = set(int(i) for i in kept.tolist())
+            viol = None
+            if kept.ndim != 1 or sorted(ks) != [int(i) for i in kept.tolist()] or any(i < 0 or i >= grid.shape[0] for i in ks):
+                viol = ("prune:bad-indices", f"{what}: result is not an ascending list of grid indices: {kept.tolist()[:20]}")
+            else:
+                for gi in range(grid.shape[0]):
+                    if gi in ks and dmin[gi] > rd["cut"] * (1 + b):
+                        viol = ("prune:kept-too-far", f"{what}: max_dist={rd['cut']}: kept grid point {g64[gi].tolist()} is {dmin[gi]:.6f} from the nearest atom")
+                    elif gi not in ks and dmin[gi] < rd["cut"] / (1 + rd["eps"]) * (1 - b):
+                        viol = ("prune:dropped-too-close", f"{what}: max_dist={rd['cut']} eps={rd['eps']}: dropped grid point {g64[gi].tolist()} is only {dmin[gi]:.6f} "
+                                f"from the nearest atom (< max_dist/(1+eps) = {rd['cut'] / (1 + rd['eps']):.6f})")
+                    if viol:
+                        break
+            term = f"(CPrune {q(NEAR_BAND)} {rowsq(atoms.tolist())} {q(rd['cut'])} {q(rd['eps'])} {rowsq(g64.tolist())} {zl(kept.tolist())})"
+            return term, viol, info
+        w = np.array(rd["weights"], dtype=float) if rd["weighted"] else None
+        wq = "None" if w is None else f"(Some {ql(rd['weights'])})"
+        if kind == "aso":
+            radii = np.array([a.vdw_radius for a in ens.atoms], dtype=np.float64)
+            obs = np.asarray(gb.aso(ens, grid, weighted=rd["weighted"]), dtype=np.float64)
+            inside = (d2 <= (radii ** 2)[None, :, None]).any(axis=1)                      # (C, G)
+            amb = (np.abs(d2 - (radii ** 2)[None, :, None]) <= float(SURF_BAND)).any(axis=(0, 1))
+            ref = np.average(inside.astype(float), axis=0, weights=w)
+            viol = desc_compare(kind, what, obs, ref, amb, g64)
+            term = f"(CAso {q(SURF_BAND)} {q(VAL_TOL)} {ensq(co.tolist())} {ql(radii.tolist())} {wq} {rowsq(g64.tolist())} {ql(obs.tolist())})"
+            info["ambiguous"] = int(amb.sum())
+            return term, viol, info
+        # aeif / atomic_indicator_field
+        if kind == "aeif":
+            radii = np.array([a.vdw_radius for a in ens.atoms], dtype=np.float64)
+            values = np.array(rd["charges"], dtype=np.float64)
+            idx = np.asarray(gb.nearest_atom_index(grid, ens, max_dist=float(np.max(radii))))
+            obs = np.asarray(gb.aeif(ens, grid, weighted=rd["weighted"]), dtype=np.float64)
+        else:
+            radii = np.array(rd["radii"], dtype=np.float64)
+            values = np.array(rd["values"], dtype=np.float64)
+            idx = np.asarray(gb.nearest_atom_index(grid, ens, max_dist=float(np.max(radii))))
+            obs = np.asarray(gb.atomic_indicator_field(ens, grid, values, radii, nearest_atom_idx=(idx if rd["pass_idx"] else None),
+                                                       weighted=rd["weighted"]), dtype=np.float64)
+        cut = float(np.max(radii))
+        inside = (d2 <= (radii ** 2)[None, :, None]).any(axis=1)
+        amb = (np.abs(d2 - (radii ** 2)[None, :, None]) <= float(SURF_BAND)).any(axis=(0, 1))
+        srt = np.sort(d2, axis=1)
+        if d2.shape[1] > 1:                                                              # ties between nearest atoms: either is right
+            tie = (srt[:, 1, :] - srt[:, 0, :] <= 1e-9 * (1 + srt[:, 0, :]))
+            amb = amb | tie.any(axis=0)
+        near = d2.argmin(axis=1)                                                         # (C, G)
+        per = np.where(inside, np.take_along_axis(values, near, axis=1), 0.0)
+        ref = np.average(per, axis=0, weights=w)
+        viol = desc_compare(kind, what, obs, ref, amb, g64)
+        term = (f"(CAif {q(SURF_BAND)} {q(NEAR_BAND)} {q(VAL_TOL)} {ensq(co.tolist())} {ql(radii.tolist())} {cq_list(ql(v) for v in values.tolist())} "
+                f"{q(cut)} {cq_list(zl(r) for r in idx.tolist())} {wq} {rowsq(g64.tolist())} {ql(obs.tolist())})")
+        info["ambiguous"] = int(amb.sum())
+        return term, viol, info
+    except Exception as e:  # noqa
+        return None, (f"{kind}:raises-{type(e).__name__}", f"{what}: raised {e!r}"), info
+
+
+def desc_compare(kind, what, obs, ref, amb, g64):
+    np = np_()
+    if obs.shape != ref.shape:
+        return (f"{kind}:wrong-shape", f"{what}: result shape {obs.shape}, expected {ref.shape}")
+    bad = (np.abs(obs - ref) > float(VAL_TOL) * 4) & ~amb
+    if bad.any():
+        gi = int(np.argwhere(bad)[0][0])
+        return (f"{kind}:wrong-value", f"{what}: at grid point {g64[gi].tolist()} the result is {obs[gi]!r}, the conformer average of the "
+                f"van der Waals indicator is {ref[gi]!r}")
+    return None
+
+
 # ------------------------------------------------------------------ the run
 def run(ctx, rep):
     rep.rule = ("a case = one call of the implementation (a kernel registered by the C++ source, built from source; the same kernel in the "
@@ -297,15 +599,51 @@ def run(ctx, rep):
     rep.trusted += ["harness/c19.py: generators, float -> exact rational encoding (Fraction(float)), layouts",
                     "tools/pybind11_shim (array_t / module_ stand-in, driver) + g++: the source build runs the registered kernels outside CPython",
                     "CPython / numpy / scipy.spatial.KDTree executing molli (IEEE rounding only tolerance-checked)"]
-    rep.assumptions += ["kernels: equality on dyadic inputs (|k|<2^10, 4 fractional bits), relative 2^-20 (float32) / 2^-48 (float64) on generic floats",
+    rep.assumptions += ["grid: equality on dyadic boxes/spacings (float32 and float64), 1e-9 (float64) / 1e-5 (float32) on generic decimals, cases whose point "
+                        "count is within rounding of a floor boundary are generated but not compared",
+                        "descriptors: grid points with |d^2 - r^2| <= 2e-3 for some atom (float32 rounding band around a sphere surface) are left out; nearest/prune: "
+                        "relative band 1e-9 around the cut-off and between tied atoms; values within 1e-9",
+                        "scipy KDTree is external: its answers are checked against the specification inside Coq, not modelled",
+                        "kernels: equality on dyadic inputs (|k|<2^10, 4 fractional bits), relative 2^-20 (float32) / 2^-48 (float64) on generic floats",
                         "sqrt is modelled by its specification: d >= 0 and d*d within s*tol of s (C19_sqrt_close)"]
+    import time
+    t0 = time.time()
     ok, out, where = vlib.build_props(ctx, rep, "C19")
+    rep.extra["t_build_props"] = round(time.time() - t0, 1)
     found = False
     terms, owners, flagged, known = kernels(ctx, rep)
     found = found or any(not v.no_input for v in rep.violations)
     bad = vlib.run_shards(ctx, rep, "c19k", HEADER_D, "check", terms, shard=max(1, -(-len(terms) // 12)), timeout=600, case_type="case")
     rep.extra["kernel_shard_cases"] = len(terms)
+    rep.extra["t_kernels"] = round(time.time() - t0, 1)
     report_bad(ctx, rep, "corr_c19k", bad, owners, flagged, found)
+    # ---- grid and descriptors
+    import molli as ml
+    gterms, gowners, gflagged = [], [], set()
+    for rd in grid_inputs(ctx) + desc_inputs(ctx):
+        term, viol, info = run_grid(rd) if rd["kind"] == "grid" else run_desc(ml, rd)
+        rep.count(f"{rd['kind']}:{rd['stream']}" + (":" + rd["target"] if "target" in rd else ""))
+        if viol:
+            found = True
+            gflagged.add(len(gowners))
+            rep.violate("C19:" + (("grid:" + viol[0]) if rd["kind"] == "grid" else viol[0]), viol[1], rd)
+        if term is None:
+            rep.case(key=None)
+            rep.count("not-compared")
+            continue
+        rep.case(key=json.dumps(rd, sort_keys=True), sample=(rd if len(gterms) % 40 == 0 else None))
+        gterms.append(term)
+        gowners.append(rd)
+    rep.extra["t_grid_driven"] = round(time.time() - t0, 1)
+    # spread the expensive kinds evenly over the shards
+    nsh = 16 if not ctx.thorough else 64
+    order = [j for s0 in range(nsh) for j in range(s0, len(gterms), nsh)]
+    gterms = [gterms[j] for j in order]
+    gowners = [gowners[j] for j in order]
+    gbad = vlib.run_shards(ctx, rep, "c19g", HEADER_G, "gcheck", gterms, shard=max(1, -(-len(gterms) // nsh)), timeout=900, case_type="gcase")
+    rep.extra["grid_shard_cases"] = len(gterms)
+    rep.extra["t_grid_shards"] = round(time.time() - t0, 1)
+    report_bad(ctx, rep, "corr_c19g", gbad, gowners, gflagged, found)
     if not ok:
         vlib.broken_obligation(rep, "C19_props", f"{where}\n{out[-1500:]}", found)
     return tuple(sorted(known))
@@ -326,6 +664,13 @@ def report_bad(ctx, rep, name, bad, owners, flagged, found):
 def replay(ctx, data):
     np = np_()
     out = []
+    if data.get("kind") == "grid":
+        _, viol, _ = run_grid(data)
+        return [vlib.Violation("C19:grid:" + viol[0], viol[1], data)] if viol else []
+    if data.get("kind") in ("nearest", "prune", "aso", "aeif", "aif"):
+        import molli as ml
+        _, viol, _ = run_desc(ml, data)
+        return [vlib.Violation("C19:" + viol[0], viol[1], data)] if viol else []
     if data.get("kind") == "kernel":
         inp = dict(name=data["name"], dt=data["dt"], exact=data["exact"], shape1=data["shape1"], a=data["a"], b=data["b"])
         if data["via"] == "shim":
